@@ -646,6 +646,12 @@ func init() {
 //	    ("marshal","MarshalBinary") ("register","onPacketWriten") ("write","WriteMessage")
 //	    ("unregister_on_fail","onPacketWriteFailed")  -- the last one only when it is inside the
 //	    `if err = v.WriteMessage(m); err != nil { .. }` block
+//	rtmp_WriteMessage_skel      writes of the message into the buffered writer and the flush, in order:
+//	    ("chunk_write","v.w") per io.Copy(v.w, ..)/v.w.Write call site, ("flush","v.w"),
+//	    ("written_hook",..); a registration call in here shows as ("register",..).  bufio.Writer
+//	    hands data to the transport whenever its buffer fills and passes large writes straight
+//	    through, so the request can be complete at the peer BEFORE Flush: the discipline is
+//	    "registered before the first chunk_write", not "before flush".
 //	rtmp_onPacketWriten_skel, rtmp_onPacketWriteFailed_skel, rtmp_parseAMFObject_tx_skel
 //	    accesses to v.input.transactions and operations on v.input.ltransactions in program
 //	    order: ("lock",..) ("unlock",..) ("map_store",..) ("map_load",..) ("map_delete",..);
@@ -755,6 +761,12 @@ func init() {
 						evs = append(evs, skelEv{"register", "onPacketWriten"})
 					case "v.WriteMessage":
 						evs = append(evs, skelEv{"write", "WriteMessage"})
+					case "io.Copy", "v.w.Write", "v.w.WriteString", "v.w.ReadFrom", "v.w.WriteByte":
+						if exprStr(ce.Fun) != "io.Copy" || (len(ce.Args) > 0 && exprStr(ce.Args[0]) == "v.w") {
+							evs = append(evs, skelEv{"chunk_write", "v.w"})
+						}
+					case "v.w.Flush":
+						evs = append(evs, skelEv{"flush", "v.w"})
 					case "v.onPacketWriteFailed":
 						if inFail(ce) {
 							evs = append(evs, skelEv{"unregister_on_fail", "onPacketWriteFailed"})
@@ -769,6 +781,36 @@ func init() {
 				}
 				g.emitSkel("rtmp_WritePacket_skel", evs, true, "")
 				seen["WritePacket"] = true
+			case "WriteMessage":
+				// every write into the buffered writer can reach the transport (bufio passes large
+				// writes through and flushes when full), so each is an event of its own
+				var evs []skelEv
+				ast.Inspect(fd.Body, func(n ast.Node) bool {
+					ce, ok := n.(*ast.CallExpr)
+					if !ok {
+						return true
+					}
+					f := exprStr(ce.Fun)
+					switch {
+					case f == "io.Copy" && len(ce.Args) > 0 && exprStr(ce.Args[0]) == "v.w",
+						f == "v.w.Write", f == "v.w.WriteString", f == "v.w.ReadFrom", f == "v.w.WriteByte":
+						evs = append(evs, skelEv{"chunk_write", "v.w"})
+					case f == "v.w.Flush":
+						evs = append(evs, skelEv{"flush", "v.w"})
+					case f == "v.onPacketWriten":
+						evs = append(evs, skelEv{"register", "onPacketWriten"})
+					case f == "v.onPacketWriteFailed":
+						evs = append(evs, skelEv{"unregister", "onPacketWriteFailed"})
+					case f == "v.onMessageWriten":
+						evs = append(evs, skelEv{"written_hook", "onMessageWriten"})
+					}
+					return true
+				})
+				if wsMentions(fd.Body, "transactions", "ltransactions") {
+					evs = append(evs, skelEv{"direct_table_access", "WriteMessage"})
+				}
+				g.emitSkel("rtmp_WriteMessage_skel", evs, true, "")
+				seen["WriteMessage"] = true
 			case "onPacketWriten", "onPacketWriteFailed":
 				g.emitSkel("rtmp_"+fd.Name.Name+"_skel", g.txScope(fd.Body), true, "")
 				seen[fd.Name.Name] = true
@@ -782,7 +824,8 @@ func init() {
 			}
 		}
 		for n, nm := range map[string]string{"WritePacket": "rtmp_WritePacket_skel", "onPacketWriten": "rtmp_onPacketWriten_skel",
-			"onPacketWriteFailed": "rtmp_onPacketWriteFailed_skel", "parseAMFObject": "rtmp_parseAMFObject_tx_skel"} {
+			"onPacketWriteFailed": "rtmp_onPacketWriteFailed_skel", "parseAMFObject": "rtmp_parseAMFObject_tx_skel",
+			"WriteMessage": "rtmp_WriteMessage_skel"} {
 			if !seen[n] {
 				g.emitSkel(nm, []skelEv{}, true, "") // absent function = empty skeleton (rejected or accepted by the model's predicate)
 			}
